@@ -30,7 +30,7 @@ EXT = '_C.cpython-312-x86_64-linux-gnu.so'
 FLAVOURS = {
     'hooks': ['-O1', '-DOPTREE_VERIF_HOOKS'],
     'asan': ['-O1', '-g', '-fno-omit-frame-pointer', '-DOPTREE_VERIF_HOOKS',
-             '-fsanitize=address,undefined', '-fno-sanitize=vptr'],
+             '-fsanitize=address,undefined', '-fno-sanitize=vptr', '-D_GLIBCXX_SANITIZE_VECTOR'],
     'plain': ['-O1'],
 }
 LINK = {
@@ -63,6 +63,7 @@ def _pyfiles():
 
 def tree_hash() -> str:
     h = hashlib.sha256()
+    h.update(repr(sorted(FLAVOURS.items())).encode())  # a change of compiler flags is a different build
     for p in _sources() + _pyfiles():
         h.update(os.path.relpath(p, REPO).encode())
         h.update(b'\0')
@@ -74,6 +75,7 @@ def tree_hash() -> str:
 
 def cpp_hash() -> str:
     h = hashlib.sha256()
+    h.update(repr(sorted(FLAVOURS.items())).encode())
     for p in _sources():
         h.update(os.path.relpath(p, REPO).encode())
         h.update(b'\0')
